@@ -48,15 +48,15 @@ def configs(tier):
                 dict(buffers=2, adv=2, depth=12, mism=0, name="b2-adv2"),
                 dict(buffers=4, adv=7, depth=11, mism=0, name="b4-adv7"),
                 dict(buffers=4, adv=5, depth=10, mism=1, name="b4-adv5")]
-    return [dict(buffers=2, adv=7, depth=20, mism=1, name="b2-adv7"),
-            dict(buffers=2, adv=2, depth=20, mism=1, name="b2-adv2"),
+    return [dict(buffers=2, adv=7, depth=17, mism=1, name="b2-adv7"),
+            dict(buffers=2, adv=2, depth=17, mism=0, name="b2-adv2"),
             dict(buffers=4, adv=7, depth=15, mism=0, name="b4-adv7"),
-            dict(buffers=4, adv=5, depth=14, mism=1, name="b4-adv5")]
+            dict(buffers=4, adv=5, depth=13, mism=1, name="b4-adv5")]
 
 
 class TxRef:
     FIELDS = ("up", "credits", "next_seq", "lcrd_next", "unacked", "pending", "retx", "old_retx", "grace", "cur", "cur_old",
-              "offering", "lrty", "mism", "sink_lc")      # sink_lc: source.valid in the latest cycle
+              "offering", "lrty", "mism", "sink_lc")      # sink_lc: an HPSTART was presented but not taken in the latest cycle
     __slots__ = FIELDS + ("n",)
     # up: advertisement received; unacked: ((seq, content, ok),..) completely transmitted, not retired, ok = a copy was sent
     # since the last LBAD; pending: contents accepted from the protocol layer, not yet transmitted; retx: headers still to
@@ -72,10 +72,10 @@ class TxRef:
 
 
 class TxSpec(Spec):
-    n_validate = 2
 
     def __init__(self, cfg, tier):
         super().__init__(cfg, tier)
+        self.n_validate = 1 if tier == "quick" else 3      # each amaranth.sim replay costs seconds to set up
         self.n = cfg["buffers"]
         self.max_depth = cfg["depth"]
         self.time_budget = 200 if tier == "quick" else 840
@@ -164,7 +164,7 @@ class TxSpec(Spec):
                     self.header_sent(r, r.cur[1:])
                     r.cur = (); r.cur_old = False
         if r.grace: r.grace -= 1
-        r.sink_lc = o.src_valid
+        r.sink_lc = int(bool(o.src_valid and not ready and not r.cur))      # an HPSTART is being presented but stalled
         return o
 
     def header_sent(self, r, ws):
@@ -174,7 +174,9 @@ class TxSpec(Spec):
         shown = dict(words=[hex(x) for x in ws], seq=p["seq"], delayed=p["delayed"])
         if not p["crc5_ok"] or p["crc16"] != L.crc16(dw0, dw1, dw2):
             raise Violation("tx:bad-crc", shown)
-        retx = () if r.cur_old else r.retx       # in the shadow of an LBAD: judged by the rules before it
+        # in the shadow of an LBAD a header is judged by the rules before it - unless it already is the first retransmission
+        shadow = r.cur_old and not (p["delayed"] and r.retx and (p["seq"], got) == (r.retx[0][0], TXC[r.retx[0][1]]))
+        retx = () if shadow else r.retx
         if retx:
             seq, c = retx[0]
             if got != TXC[c] or p["seq"] != seq:
@@ -188,7 +190,7 @@ class TxSpec(Spec):
             self.cover["retransmitted"] += 1
             return
         # a new header
-        if r.cur_old and not p["delayed"] and any((p["seq"], c) == (s, cc) and got == TXC[cc] for s, cc, _ in r.unacked for c in (cc,)):
+        if shadow and not p["delayed"] and any((p["seq"], c) == (s, cc) and got == TXC[cc] for s, cc, _ in r.unacked for c in (cc,)):
             raise Violation("retry:retransmission-without-delayed-flag",
                             dict(shown, unacknowledged=[list(x) for x in r.unacked],
                                  note="an unacknowledged header sent again right behind the LBAD, DL clear"))
@@ -207,7 +209,7 @@ class TxSpec(Spec):
         r.pending = r.pending[1:]
         r.credits -= 1
         r.next_seq = (r.next_seq + 1) & 7
-        if r.cur_old:
+        if shadow:
             # sent in the shadow of an LBAD: the partner ignores it, it has to be retransmitted with the others
             r.unacked = r.unacked + ((p["seq"], c, False),)
             r.retx = r.retx + ((p["seq"], c),)
